@@ -302,6 +302,23 @@ def driver_source(enums, fields, total, bufs):
             L.append("    { auto f = v.%s(); %s x = static_cast<%s>(%s); bool c = f.CouldWriteValue(x); bool t = f.TryToWrite(x); bool rb = t && f.Read() == x; P(\"w.%s.%d\", std::string(c ? \"1\" : \"0\") + (t ? \"1\" : \"0\") + (rb ? \"1\" : \"0\")); }" % (fname, T, T, cpp_literal(pv), fname, pv))
             ok = flo <= pv <= fhi
             expect.append(("w.%s.%d" % (fname, pv), "111" if ok else "000", ""))
+        # the same through the text format: a number (any in-range value, named or not) and the declared names
+        tprobes = sorted(set(x for x in [0, 1, fhi, flo, -1, -3] + [x[1] for x in e.values] if lo <= x <= hi and -(2**63) <= x <= 2**63 - 1))[:8]
+        for pv in tprobes:
+            T = cpp_enum_name(e)
+            L.append("    { auto f = v.%s(); bool r = ::emboss::UpdateFromText(f, std::string(\"%d\")); bool rb = r && f.Read() == static_cast<%s>(%s); P(\"t.%s.%d\", std::string(r ? \"1\" : \"0\") + (rb ? \"1\" : \"0\")); }" % (fname, pv, T, cpp_literal(pv), fname, pv))
+            ok = flo <= pv <= fhi
+            expect.append(("t.%s.%d" % (fname, pv), "11" if ok else "00", ""))
+        seen_names = set()
+        for n, val, cases, own in e.values[:4]:
+            if n in seen_names:
+                continue
+            seen_names.add(n)
+            T = cpp_enum_name(e)
+            L.append("    { auto f = v.%s(); bool r = ::emboss::UpdateFromText(f, std::string(\"%s\")); bool rb = r && f.Read() == static_cast<%s>(%s); P(\"tn.%s.%s\", std::string(r ? \"1\" : \"0\") + (rb ? \"1\" : \"0\")); }" % (fname, n, T, cpp_literal(val), fname, n))
+            first_val = next(x[1] for x in e.values if x[0] == n)
+            ok = flo <= first_val <= fhi
+            expect.append(("tn.%s.%s" % (fname, n), "11" if ok else "00", ""))
     L.append("  }")
     L.append("  return 0;")
     L.append("}")
@@ -376,13 +393,13 @@ def run(ctx):
         nfail = 0
         for item in c["expect"]:
             k, v = item[0], item[1]
-            stats.case([c["text"], k], interesting, ["field-write" if k.startswith("w.") else (k.split(".")[1] if "." in k and k.startswith("e") else "field-read")], sample={"probe": k, "expected": v, "module_head": c["text"][:300]} if nfail == 0 and stats.evaluations % 97 == 0 else None)
+            stats.case([c["text"], k], interesting, ["field-write" if k.startswith("w.") else "field-text" if k.startswith(("t.", "tn.")) else (k.split(".")[1] if "." in k and k.startswith("e") else "field-read")], sample={"probe": k, "expected": v, "module_head": c["text"][:300]} if nfail == 0 and stats.evaluations % 97 == 0 else None)
             g = got.get(k)
             if g is not None and v.endswith("|*"):
                 g = g.rsplit("|", 1)[0] + "|*"
             if g != v and nfail < 6:
                 nfail += 1
-                kind = k.split(".")[1] if k.startswith("e") else ("field-write" if k.startswith("w.") else "field-read")
+                kind = k.split(".")[1] if k.startswith("e") else ("field-write" if k.startswith("w.") else "field-text" if k.startswith(("t.", "tn.")) else "field-read")
                 sig = {"kind": "enum-mismatch", "what": kind, "field": "enum-signed" if (len(item) > 2 and item[2] == "signed-narrow") else "-"}
                 stats.fail(sig, {"text": c["text"], "probe": k}, "%s: generated code says %r, the definition says %r" % (k, got.get(k), v))
     shutil.rmtree(root, ignore_errors=True)
